@@ -569,6 +569,16 @@ func TestStaleSlowChild(t *testing.T) {
 	fmt.Printf("STALE-CHILD-RESULT cases=%d digest=%x\n", n, h)
 }
 
+// c17NoFileErrors: whatever is wrong with a fail file is a log line, never an error of the test.
+func c17NoFileErrors(res *Result, sc Scenario, run *checkRun, what string) {
+	for _, e := range run.tb.errors() {
+		if strings.Contains(e, "ignoring fail file") || strings.Contains(e, "no longer fails") || strings.Contains(e, "no longer valid") {
+			res.violate(sc, "c17/file-problem-is-an-error", what+": an unusable fail file was reported as an ERROR of the test (it must be ignored with a log line): "+clip(e, 300), map[string]any{"tb": run.tb.brief()})
+			return
+		}
+	}
+}
+
 func c17Run(t *testing.T, sc Scenario, res *Result) {
 	defer os.RemoveAll("testdata")
 	os.RemoveAll("testdata")
@@ -792,6 +802,7 @@ func c17Run(t *testing.T, sc Scenario, res *Result) {
 			res.inconclusive("the usable explicit fail file did not reproduce: " + clip(first.rp.Raw, 100))
 			return
 		}
+		c17NoFileErrors(res, sc, second, "explicit file replaced by an unusable one")
 		if second.rp.Kind != base.rp.Kind || second.rp.M != base.rp.M || second.rp.N != base.rp.N || second.rp.Seed != base.rp.Seed {
 			res.violate(sc, "c17/explicit-stale", fmt.Sprintf("after the explicit fail file was replaced by an unusable one the Check did not behave as without it: %q vs %q", clip(second.rp.Raw, 140), clip(base.rp.Raw, 140)),
 				map[string]any{"second": second.tb.brief(), "without_file": base.tb.brief()})
@@ -827,6 +838,10 @@ func c17Run(t *testing.T, sc Scenario, res *Result) {
 				res.violate(sc, "c17/explicit-usable/"+firstWords(pr, 5), "a truncated file given with -rapid.failfile was used as a fail file but: "+pr, map[string]any{"explicit": bad, "with_flag": with.tb.brief()})
 			}
 			return
+		}
+		c17NoFileErrors(res, sc, with, "unusable -rapid.failfile next to a usable file")
+		if len(with.tb.errors()) != len(plain.tb.errors()) {
+			res.violate(sc, "c17/explicit-errors", fmt.Sprintf("an unusable -rapid.failfile changed the number of errors reported to the test: %d vs %d without the flag", len(with.tb.errors()), len(plain.tb.errors())), map[string]any{"explicit": bad, "with_flag": with.tb.brief(), "without_flag": plain.tb.brief()})
 		}
 		if with.rp.Kind != plain.rp.Kind || with.rp.M != plain.rp.M || with.rp.N != plain.rp.N {
 			res.violate(sc, "c17/explicit-verdict", fmt.Sprintf("an unusable -rapid.failfile changed the verdict: %q vs %q without the flag", clip(with.rp.Raw+with.rp.Kind, 160), clip(plain.rp.Raw+plain.rp.Kind, 160)),
